@@ -108,6 +108,8 @@ def r2_seed_only(ctx):
     ctx.rule("C09.R2", "Shuffle/Reservoir/Riffle draw only from CobaRandom(self._seed) constructed in the call")
     fam = {k: c for k, c in c04.family(ctx).items() if c.name in ("Shuffle", "Reservoir", "Riffle")}
     c04.r4_fresh_rng(ctx, fam, rule="C09.R2", only={"Shuffle", "Reservoir", "Riffle"})
+    # the seed itself must be the same on every read: any rewrite of self state on the read path is restored in a finally
+    c04.r2_cross_read_state(ctx, fam, rule="C09.R2", only={"Shuffle", "Reservoir", "Riffle"})
     n = 0
     for (rel, qual) in ((PF, "Shuffle.filter"), (PF, "Reservoir.filter"), (EF, "Riffle.filter")):
         fn = ctx.fn(rel, qual)
@@ -356,6 +358,7 @@ def r6_batch_unbatch(ctx):
 
 
 CONTROLS = [
+    ("Shuffle seed not restored", EF, M.replace_stmt("Shuffle.filter", lambda st: isinstance(st, ast.Try), "yield from super().filter(interactions)\nself._seed = old_seed"), "C09.R2"),
     ("Where alters interaction", EF, M.replace_stmt("Where.filter", M.simple_has("yield interaction"), "interaction['context'] = None\nyield interaction"), "C09.R1"),
     ("Sort yields copies", EF, M.replace_expr("Sort.filter", "sorted(interactions, key=sorter)", "sorted(map(dict, interactions), key=sorter)"), "C09.R1"),
     ("Riffle unseeded", EF, M.replace_expr("Riffle.filter", "CobaRandom(self._seed)", "CobaRandom()"), "C09.R2"),
